@@ -31,6 +31,7 @@ type C04Case struct {
 	GetSSE  bool    `json:"getsse"`
 	PostSSE bool    `json:"postsse"`
 	Ops     []C04Op `json:"ops"`
+	Order   int     `json:"order,omitempty"` // the server options are given in this rotation of their usual order (options are a set, not a sequence)
 }
 
 // initialize requests the server rejects (answered with a JSON-RPC error): whatever id the answer carries is an issued id
@@ -46,6 +47,7 @@ var garbageIDs = []string{"x", "../../etc/passwd", "0000", "deadbeef", "é", " "
 
 func genC04(t *rapid.T) C04Case {
 	c := C04Case{Cfg: rapid.SampledFrom([]int{0, 0, 0, 0, 1, 2}).Draw(t, "cfg"), GetSSE: rapid.IntRange(0, 4).Draw(t, "get") != 0, PostSSE: rapid.Bool().Draw(t, "postsse")}
+	c.Order = rapid.IntRange(0, 5).Draw(t, "order")
 	n := rapid.IntRange(1, 14).Draw(t, "nops")
 	for i := 0; i < n; i++ {
 		op := C04Op{Op: rapid.SampledFrom([]string{"init", "init", "badinit", "req", "req", "req", "notif", "resp", "get", "get", "closestream", "delete", "delete", "deleterace"}).Draw(t, "op")}
@@ -108,6 +110,9 @@ func c04Server(c C04Case) *mcp.Server {
 		opts = append(opts, mcp.WithStatelessMode(true))
 	case 2:
 		opts = append(opts, mcp.WithoutSession())
+	}
+	if k := c.Order % len(opts); k > 0 {
+		opts = append(append([]mcp.ServerOption(nil), opts[k:]...), opts[:k]...)
 	}
 	s := mcp.NewServer("c04", "1", opts...)
 	w := &World{Calls: map[string]int{}}
@@ -202,6 +207,7 @@ func execC04(c C04Case) *Failure {
 	live := map[string]bool{}
 	dead := map[string]bool{}
 	streams := map[string]*LiveResp{}
+	older := map[string][]*LiveResp{} // streams of a session that a later GET of the same session replaced
 	var allStreams []*LiveResp
 	defer func() {
 		for _, s := range allStreams {
@@ -409,6 +415,9 @@ func execC04(c C04Case) *Failure {
 				if rh.Get("Mcp-Session-Id") != id {
 					return Failf("C04/id-not-echoed", "%s: stream opened with Mcp-Session-Id %q", where, rh.Get("Mcp-Session-Id"))
 				}
+				if prev, ok := streams[id]; ok && prev != lr {
+					older[id] = append(older[id], prev)
+				}
 				streams[id] = lr
 			} else {
 				if !lr.WaitReturned(Bound() * 4) {
@@ -499,6 +508,11 @@ func execC04(c C04Case) *Failure {
 					}
 					delete(streams, id)
 				}
+				for _, s := range older[id] {
+					if !s.WaitReturned(Bound() * 4) {
+						return TimingFailf("C04/delete-leaves-stream-open", "%s: an earlier listening stream of the session is still open after DELETE", where)
+					}
+				}
 			}
 		case "delete":
 			ex = direct("DELETE", "")
@@ -529,6 +543,11 @@ func execC04(c C04Case) *Failure {
 						return TimingFailf("C04/delete-leaves-stream-open", "%s: the session's listening stream is still open after DELETE", where)
 					}
 					delete(streams, id)
+				}
+				for _, s := range older[id] {
+					if !s.WaitReturned(Bound() * 4) {
+						return TimingFailf("C04/delete-leaves-stream-open", "%s: an earlier listening stream of the session is still open after DELETE", where)
+					}
 				}
 			}
 		}
